@@ -572,26 +572,34 @@ func (sh *SyncHandler) runSync(syncType string, enumSrc func(chan<- blob.SizedRe
 
 	workch := make(chan blob.SizedRef, 1000)
 	resch := make(chan copyResult, 8)
-FeedWork:
+	nDone := 0
+	gotResult := func(res copyResult) {
+		nDone++
+		if res.err == nil {
+			nCopied++
+		}
+	}
 	for sb := range enumch {
 		if toCopy < sh.copierPoolSize {
 			go sh.copyWorker(resch, workch)
 		}
-		select {
-		case workch <- sb:
-			toCopy++
-		default:
-			// Buffer full. Enough for this batch. Will get it later.
-			break FeedWork
+		// While the buffer is full, collect results. (Giving up on the
+		// rest of the enumeration here would leave enumSrc blocked on
+		// enumch for good, and a full sync has no later.)
+		for sent := false; !sent; {
+			select {
+			case workch <- sb:
+				toCopy++
+				sent = true
+			case res := <-resch:
+				gotResult(res)
+			}
 		}
 	}
 	close(workch)
-	for i := 0; i < toCopy; i++ {
+	for nDone < toCopy {
 		sh.setStatusf("Copying blobs")
-		res := <-resch
-		if res.err == nil {
-			nCopied++
-		}
+		gotResult(<-resch)
 	}
 
 	if err := <-errch; err != nil {
